@@ -72,7 +72,7 @@ def run(chk):
     # programs: witnesses first, then generated (c07 flavour; some c06 flavour for the trace correspondence only)
     labelled = list(WITNESSES)
     g7 = sp.Gen(chk.rng, "c07")
-    for i in range(20000 if thorough else 700):
+    for i in range(15000 if thorough else 700):
         labelled.append(("c07:%d" % i, g7.program()))
     g6 = sp.Gen(chk.rng, "c06")
     for i in range(4000 if thorough else 100):
@@ -84,7 +84,7 @@ def run(chk):
                 "(b) executed, log / exception / module globals compared with the lexical reference interpreter. "
                 "non-trivial = distinct program with a nonlocal/global declaration on which the reference makes a claim")
     t1 = time.time()
-    so.correspondence(chk, labelled, limit=(8000 if thorough else 450))
+    so.correspondence(chk, labelled, limit=(6000 if thorough else 450))
     phases["trace correspondence"] = round(time.time() - t1, 1)
     t2 = time.time()
     so.oracle(chk, "C07", [x for x in labelled if not x[0].startswith("c06:")], need=("nonlocal", "global"))
